@@ -63,6 +63,7 @@ void shp_rs8_addmul1(uint8_t *dst, uint8_t *src, uint8_t c, int sz);
 /* which: 0 exp (elem 1 byte), 1 log (int), 2 inverse (1 byte), 3 mul_table (1 byte, row stride in *stride) */
 int shp_rs8_table(int which, const void **p, size_t *elem_size, size_t *count, size_t *stride);
 int shp_rs8_use(int flavour, uint64_t start, uint64_t count);   /* creates/uses/frees codec contexts of the private copy */
+void shp_set_verbosity(uint32_t v);   /* sets the library's process-wide of_verbosity (0, 1, 2 are the documented values) */
 void shp_rs8_reinit(void);   /* calls the exported of_rs_init() once more (regeneration must be idempotent) */
 
 /* probe_gf: precomputed tables of the GF(2^m) codec.
@@ -90,6 +91,7 @@ void shp_sp_clear(void *m);
 int shp_sp_insert(void *m, uint32_t r, uint32_t c);   /* 1 if an entry pointer was returned */
 int shp_sp_find(void *m, uint32_t r, uint32_t c);
 int shp_sp_delete(void *m, uint32_t r, uint32_t c);   /* find + delete; 0 if absent */
+long shp_sp_delete_run(void *m, int by_col, uint32_t line, uint32_t skip, uint32_t count, int32_t *out, long cap);   /* deletes through traversal handles, no lookup */
 void shp_sp_copy(void *m, void *r);
 void shp_sp_copyrows(void *m, void *r, uint32_t *rows);
 void shp_sp_copycols(void *m, void *r, uint32_t *cols);
